@@ -3,17 +3,38 @@
 Statistical layer on the implementation (the property prescribes it): per-polygon counts and counts on
 each side of random half-plane cuts against exact two-sided binomial tail bounds, total false-alarm
 budget 1e-9 per run (Bonferroni over all tests); two-element range attributes on 10 bins.
-Correspondence: the bit-exact draw-replay of the sampling map is shared with C03 (re-run here)."""
-import importlib, math
+Correspondence: the bit-exact draw-replay of the sampling map is shared with C03 (re-run here).
+
+Second family of experiments (own false-alarm budget ALPHA_NEW, Bonferroni over MAX_TESTS_NEW, counted):
+polygons spread over both hemispheres in every container form of `latlon_from_poly`; the GeoJSON, nested-list
+and metric-offset forms of `get_location`; direct calls of `get_polygon_sample_triangles` (mixed orientation)
+and of `get_polygon_sample{,_convex,_nonconvex}`; shares of a 16-cell barycentric grid pooled over the
+triangles; per-particle oracles on the recorded draws (cumulative-area interval, affine map); range
+attributes in every container / through `make_release`, with a DKW bound and an atom bound."""
+import importlib, math, io, json
+from fractions import Fraction as Fr
 import numpy as np
 from .common import RngRecorder
 from . import geom, c03
 
-RULE = ("1..4 disjoint simple polygons (star / comb / triangles, both orientations) with area ratios up to ~1:50, N samples per "
-        "shape through the real latlon_from_poly, per-polygon counts + 6 random half-plane cuts per shape, exact binomial bounds; "
-        "range attributes [lo,hi] on 10 bins. Non-trivial: every statistical experiment.")
+RULE = ("1..4 disjoint simple polygons (star / comb / triangles, both orientations) with area ratios up to ~1:50 (35% of the shapes "
+        "1e-4..1e-3 degrees across), N samples per shape through the real latlon_from_poly, per-polygon counts + 6 random half-plane "
+        "cuts per shape, exact binomial bounds; range attributes [lo,hi] on 10 bins. "
+        "Added family: 1..5 polygons (also strictly convex, 60..400-vertex stars, rectangles with collinear mid-edge vertices) with centres "
+        "at latitudes -75..75 and longitudes -170..170, radii mixed 1:10 inside a shape, passed as list of arrays / nested lists / single "
+        "polygon / equal vertex counts (also as one 2-D array), N up to 1e5 (quick) / 5e5; a cut on every polygon; GeoJSON layers "
+        "(1..4 features, Polygon / MultiPolygon, dict or list of layers, and farms of 12..50 cages) , nested-list and metric-offset "
+        "locations through get_location; get_polygon_sample_triangles on valid triangulations with randomly flipped / permuted "
+        "triangles; get_polygon_sample / _convex / _nonconvex on (n,2) arrays; 16-cell barycentric grid + centre triangle pooled over "
+        "triangles; per-particle pick-interval and affine-map oracles from the recorded draws; ranges with float / int bounds as list, "
+        "tuple, ndarray, explicit uniform dict, through get_attrs and make_release (implicit key and attrs), DKW + atom bounds. "
+        "Non-trivial: every statistical experiment.")
 ASSUMPTIONS = ["np.random.rand is uniform on [0,1) (numpy legacy generator, trusted; this layer validates it)",
-               "'a.e.-bijection with constant Jacobian maps uniform to uniform' is cited, not formalised"]
+               "'a.e.-bijection with constant Jacobian maps uniform to uniform' is cited, not formalised",
+               "metric-offset experiment: the harness converts degrees back to metres with its own copy of the WGS84 formulas of C03 "
+               "(a positive diagonal linear map, so area shares are those of the offset polygon)",
+               "points within double rounding of a cut line / cell border may be counted on the other side (probability ~1e-10 per point; "
+               "cannot move a 7.5-sigma bound)"]
 ALPHA_TOTAL = 1e-9
 MAX_TESTS = 3000
 SITE = "ladim_plugins/release/makrel.py::get_polygon_sample_triangles"
@@ -29,8 +50,616 @@ def binom_ok(k, n, p):
     return not (binom.cdf(k, n, p) < a or binom.sf(k - 1, n, p) < a)
 
 
+# ============================================================================= second family of experiments
+# Own false-alarm budget: the first family keeps its per-test level unchanged.  Every statistical test of the
+# second family goes through `_count_test()`; `run` checks the count against MAX_TESTS_NEW (Bonferroni).
+ALPHA_NEW = 1e-9
+MAX_TESTS_NEW = 20000
+_new_tests = [0]
+MK = "ladim_plugins/release/makrel.py::"
+
+
+def _level():
+    return ALPHA_NEW / MAX_TESTS_NEW / 2
+
+
+def _count_test():
+    _new_tests[0] += 1
+
+
+def binom_ok2(k, n, p):
+    """exact two-sided binomial tail bound at the per-test level of the second family"""
+    from scipy.stats import binom
+    _count_test()
+    a = _level()
+    if p <= 0:
+        return k == 0
+    if p >= 1:
+        return k == n
+    return not (binom.cdf(k, n, p) < a or binom.sf(k - 1, n, p) < a)
+
+
+# ----------------------------------------------------------------------------- polygon generators (all simple)
+def _finish(rng, p):
+    """random orientation and random start vertex"""
+    j = rng.randrange(len(p))
+    p = p[j:] + p[:j]
+    if rng.random() < 0.5:
+        p = p[::-1]
+    return p
+
+
+def _convex_polygon(rng, cx, cy, r, n):
+    """strictly convex: n points of an ellipse at strictly increasing angles (gaps >= 0.2 * 2 pi / n)"""
+    base = rng.uniform(0, 2 * math.pi)
+    ang = [base + 2 * math.pi * (i + rng.uniform(0.1, 0.9)) / n for i in range(n)]
+    return _finish(rng, [(cx + r * math.cos(a), cy + 0.6 * r * math.sin(a)) for a in ang])
+
+
+def _radial_star(rng, cx, cy, r, n):
+    """star-shaped about its centre: strictly increasing polar angles with gaps < pi and positive radii, hence simple
+    by construction (the y-squash is linear and keeps that); used for many-vertex polygons, where the exact O(n^2)
+    simplicity test of geom would be too slow, and for polygons with a prescribed vertex count"""
+    out = []
+    for i in range(n):
+        a = 2 * math.pi * (i + rng.uniform(0.1, 0.9)) / n
+        rr = r * rng.uniform(0.4, 1.0)
+        out.append((cx + rr * math.cos(a), cy + 0.6 * rr * math.sin(a)))
+    return _finish(rng, out)
+
+
+def _collinear_rect(rng, cx, cy, r):
+    """a rectangle (cage, basin) with extra vertices on its edges: consecutive collinear vertices, still a simple polygon"""
+    while True:
+        w = r * rng.uniform(0.5, 1.0); h = 0.6 * r * rng.uniform(0.3, 1.0)
+        x0, x1, y0, y1 = cx - w, cx + w, cy - h, cy + h
+        mid = lambda a, b: sorted(a + (b - a) * rng.uniform(0.05, 0.95) for _ in range(rng.randrange(0, 4)))
+        p = [(x0, y0)] + [(x, y0) for x in mid(x0, x1)] + [(x1, y0)] + [(x1, y) for y in mid(y0, y1)] + \
+            [(x1, y1)] + [(x, y1) for x in mid(x0, x1)[::-1]] + [(x0, y1)] + [(x0, y) for y in mid(y0, y1)[::-1]]
+        if len(set(p)) == len(p) and x0 < x1 and y0 < y1:
+            return _finish(rng, p)
+
+
+def _any_polygon(rng, cx, cy, r, many=(60, 140)):
+    kind = rng.choice(["geom", "geom", "geom", "convex", "collinear", "many"])
+    if kind == "geom":
+        return kind, geom.random_polygon(rng, cx, cy, r)
+    if kind == "convex":
+        return kind, _convex_polygon(rng, cx, cy, r, rng.randrange(3, 13))
+    if kind == "collinear":
+        return kind, _collinear_rect(rng, cx, cy, r)
+    return kind, _radial_star(rng, cx, cy, r, rng.randrange(*many))
+
+
+def _box(cx, cy, r):
+    # every generator above stays inside [cx-r, cx+r] x [cy-0.6r, cy+0.6r]; the comb of geom reaches cy+0.57r
+    return (cx - 1.02 * r, cx + 1.02 * r, cy - 0.62 * r, cy + 0.62 * r)
+
+
+def _disjoint(b, boxes, gap):
+    return all(b[1] + gap < o[0] or o[1] + gap < b[0] or b[3] + gap < o[2] or o[3] + gap < b[2] for o in boxes)
+
+
+def _layout(rng, k, small):
+    """k centres and radii with pairwise disjoint boxes: large areas spread over both hemispheres (a weight that
+    depends on the position of a polygon, not only on its planar area, changes the shares visibly), small areas
+    (cages of tens of metres) next to each other anywhere on the globe"""
+    out = []; boxes = []
+    if small:
+        base = rng.choice([1e-4, 3e-4, 1e-3]); lon0 = rng.uniform(-170, 170); lat0 = rng.uniform(-75, 75)
+    else:
+        base = rng.choice([0.1, 0.3, 0.5])
+    while len(out) < k:
+        r = base * rng.choice([1, 1, 2, 3, 6])
+        if small:
+            cx = lon0 + base * rng.uniform(-40, 40); cy = lat0 + base * rng.uniform(-25, 25)
+        else:
+            cx = rng.uniform(-170, 170); cy = rng.choice([-75.0, -40.0, -5.0, 0.0, 30.0, 60.0, 75.0]) + rng.uniform(-4, 4)
+        b = _box(cx, cy, r)
+        if _disjoint(b, boxes, 0.05 * base):
+            out.append((cx, cy, r)); boxes.append(b)
+    return out
+
+
+def _bbox_labels(polys, x, y):
+    """label of the polygon whose (padded, pairwise disjoint) bounding box holds the point; -1: none"""
+    lab = np.full(len(x), -1)
+    for i, p in enumerate(polys):
+        xs = [q[0] for q in p]; ys = [q[1] for q in p]
+        # rounding of the convex combination (and of a conversion to metres): a few ulps of the coordinates
+        px = 1e-9 * (max(xs) - min(xs)) + 16 * float(np.spacing(max(abs(v) for v in xs)))
+        py = 1e-9 * (max(ys) - min(ys)) + 16 * float(np.spacing(max(abs(v) for v in ys)))
+        m = (x >= min(xs) - px) & (x <= max(xs) + px) & (y >= min(ys) - py) & (y <= max(ys) + py)
+        lab[m] = i
+    return lab
+
+
+def _is_convex_exact(p):
+    sg = set()
+    n = len(p)
+    for i in range(n):
+        (ax, ay), (bx, by), (cx, cy) = p[i - 1], p[i], p[(i + 1) % n]
+        v = (Fr(bx) - Fr(ax)) * (Fr(cy) - Fr(ay)) - (Fr(by) - Fr(ay)) * (Fr(cx) - Fr(ax))
+        if v != 0:
+            sg.add(v > 0)
+    return len(sg) == 1
+
+
+# ----------------------------------------------------------------------------- shared oracles
+def _share_tests(ctx, tag, site, polys, lab, x, y, N, cs, cut_on=None, extra_cuts=2):
+    """polys: [(x, y)] in the coordinates of the points x, y; lab: polygon index of every particle (or -1).
+    Per-polygon counts, the pooled count of all polygons but the largest, no particle outside, and half-plane
+    cuts: one on every polygon of `cut_on` (default: all) plus `extra_cuts` random ones."""
+    k = len(polys)
+    areas = [abs(geom.shoelace(p)) for p in polys]
+    A = sum(areas)
+    cs = dict(cs, areas=areas)
+    none = int(np.sum((lab < 0) | (lab >= k)))
+    ctx.oracle(none == 0, "C17.%s.outside" % tag, site, "%d of %d particles in none of the polygons (area share 0)" % (none, N), cs)
+    counts = np.bincount(lab[(lab >= 0) & (lab < k)], minlength=k)
+    for i in range(k):
+        cnt = int(counts[i]); sh = areas[i] / A
+        ctx.oracle(binom_ok2(cnt, N, sh), "C17.%s.polygon_share" % tag, site,
+                   "polygon %d (area share %.6f) received %d of %d particles (expected %.0f +- %.0f)" %
+                   (i, sh, cnt, N, N * sh, math.sqrt(N * sh * (1 - sh))), dict(cs, polygon=i, count=cnt))
+    if k > 1:
+        big = max(range(k), key=lambda i: areas[i])
+        cnt = int(counts.sum() - counts[big]); sh = 1 - areas[big] / A
+        ctx.oracle(binom_ok2(cnt, N, sh), "C17.%s.polygon_share_pooled" % tag, site,
+                   "all polygons but the largest (area share %.6f) received %d of %d (expected %.0f)" % (sh, cnt, N, N * sh),
+                   dict(cs, largest=big, count=cnt))
+    which = list(range(k)) if cut_on is None else list(cut_on)
+    which += [ctx.rng.randrange(k) for _ in range(extra_cuts)]
+    for i in which:
+        p = polys[i]
+        th = ctx.rng.uniform(0, 2 * math.pi); a, b = math.cos(th), math.sin(th)
+        vals = [a * px + b * py for px, py in p]
+        cc = ctx.rng.uniform(min(vals), max(vals))
+        part = geom.clip_halfplane(p, a, b, cc)
+        share = min(max((abs(geom.shoelace(part)) if len(part) >= 3 else 0.0) / A, 0.0), 1.0)
+        cnt = int(np.sum((lab == i) & (a * x + b * y <= cc)))
+        ctx.case(key=(tag + ".cut", repr(p[:4]), th, cc), nontrivial=True); ctx.branch(tag + ".halfplane_cut")
+        ctx.oracle(binom_ok2(cnt, N, share), "C17.%s.halfplane_share" % tag, site,
+                   "half-plane cut of polygon %d: area share %.6f, received %d of %d (expected %.0f)" % (i, share, cnt, N, N * share),
+                   dict(cs, polygon=i, cut=[a, b, cc], count=cnt, share=share))
+
+
+def _locate(tris, x, y, eps=1e-6):
+    """triangle of a valid triangulation that holds each point, with its coordinates (s, t) in that triangle:
+    point = v1 + s (v2 - v1) + t (v3 - v1).  eps (barycentric units) absorbs the rounding of the implementation's
+    convex combination and of this solve (about 1e-9 for a 10 m triangle at 60 N); points on a shared edge go to the
+    first triangle, which moves an expected count by at most ~N * 1e-6."""
+    n = len(x)
+    tn = np.full(n, -1); S = np.zeros(n); T = np.zeros(n)
+    for j, tri in enumerate(np.asarray(tris, dtype=float)):
+        (x1, y1), (x2, y2), (x3, y3) = tri
+        d = (x2 - x1) * (y3 - y1) - (x3 - x1) * (y2 - y1)
+        if d == 0:
+            continue
+        idx = np.nonzero(tn < 0)[0]
+        if len(idx) == 0:
+            break
+        s = ((x[idx] - x1) * (y3 - y1) - (x3 - x1) * (y[idx] - y1)) / d
+        t = ((x2 - x1) * (y[idx] - y1) - (x[idx] - x1) * (y2 - y1)) / d
+        ok = (s >= -eps) & (t >= -eps) & (s + t <= 1 + eps)
+        tn[idx[ok]] = j; S[idx[ok]] = s[ok]; T[idx[ok]] = t[ok]
+    return tn, S, T
+
+
+def _sub_triangle_tests(ctx, tag, site, s, t, cs):
+    """Positions are uniform within each triangle of a valid triangulation, so -- pooled over the triangles, whatever
+    their areas -- each of the 16 congruent cells of the 4 x 4 barycentric grid holds 1/16 of the particles and the
+    centre triangle (the triangle scaled by 1/2 about its centroid: all barycentric coordinates >= 1/6) holds 1/4."""
+    n = len(s)
+    if n == 0:
+        return
+    s = np.clip(s, 0.0, 1.0); t = np.clip(t, 0.0, 1.0)
+    e = np.maximum(s + t - 1.0, 0.0)
+    s = (s - e / 2) * (1 - 1e-12); t = (t - e / 2) * (1 - 1e-12)       # rounding only: keeps s + t < 1
+    s = np.maximum(s, 0.0); t = np.maximum(t, 0.0)
+    fs = 4 * s; ft = 4 * t
+    i = np.minimum(np.floor(fs), 3).astype(int); j = np.minimum(np.floor(ft), 3).astype(int)
+    up = ((fs - i) + (ft - j) < 1).astype(int)
+    code = i * 8 + j * 2 + up
+    cnt = np.bincount(code, minlength=64)
+    valid = [a * 8 + b * 2 + 1 for a in range(4) for b in range(4) if a + b <= 3] + \
+            [a * 8 + b * 2 for a in range(4) for b in range(4) if a + b <= 2]
+    assert len(valid) == 16 and int(cnt[valid].sum()) == n, "barycentric grid bookkeeping"
+    for c in valid:
+        ctx.oracle(binom_ok2(int(cnt[c]), n, 1.0 / 16), "C17.%s.sub_triangle_share" % tag, site,
+                   "barycentric cell (i=%d, j=%d, %s) pooled over the triangles holds %d of %d particles (expected %.0f)" %
+                   (c // 8, (c // 2) % 4, "up" if c % 2 else "down", cnt[c], n, n / 16.0), dict(cs, cell=c, counts=cnt[valid].tolist()))
+    centre = int(np.sum(np.minimum(np.minimum(s, t), 1 - s - t) >= 1.0 / 6))
+    ctx.oracle(binom_ok2(centre, n, 0.25), "C17.%s.centre_triangle_share" % tag, site,
+               "the half-size triangles about the centroids hold %d of %d particles (expected %.0f)" % (centre, n, n / 4.0), dict(cs, count=centre))
+    ctx.branch(tag + ".sub_triangles")
+
+
+def _exact_cum_shares(tris):
+    ar = []
+    for tri in np.asarray(tris, dtype=float):
+        (x1, y1), (x2, y2), (x3, y3) = [(Fr(float(v[0])), Fr(float(v[1]))) for v in tri]
+        ar.append(abs((x2 - x1) * (y3 - y1) - (x3 - x1) * (y2 - y1)) / 2)
+    tot = sum(ar)
+    cum = []; acc = Fr(0)
+    for a in ar:
+        acc += a; cum.append(float(acc / tot))
+    return np.array(cum), [float(a / tot) for a in ar]
+
+
+def _draw_oracles(ctx, tag, site, tris, rec, N, outx, outy, cs, tnum=None, polynum=None, pidx=None):
+    """Per-particle oracles from the recorded draws (the mechanism behind the shares, anchors of C17): the particle
+    with first draw u lies in the triangle k with cum_{k-1}/A < u <= cum_k/A (cumulative exact areas), and its position
+    is v1 + s (v2 - v1) + t (v3 - v1) for the folded pair (s, t) of its two other draws.  Only evaluated when the
+    implementation asked for the draws of that scheme (another scheme may be uniform as well; C03's correspondence
+    reports a changed schedule).  tris in the coordinate order of outx, outy."""
+    if rec.schedule() != [("rand", (N,)), ("rand", (2 * N,))]:
+        ctx.branch(tag + ".other_draw_schedule"); return
+    tris = np.asarray(tris, dtype=float)
+    u = np.asarray(rec.log[0][3]); st = np.asarray(rec.log[1][3]).reshape((2, -1))
+    cum, _ = _exact_cum_shares(tris)
+    k = np.minimum(np.searchsorted(cum, u, side="left"), len(cum) - 1)
+    # the implementation's float cumulative sum differs from the exact one by at most ~T * 2^-53 <= 1e-13:
+    # particles whose draw is that close to an interval end are not judged
+    below = np.where(k > 0, cum[np.maximum(k - 1, 0)], -1.0)
+    far = (np.abs(u - cum[k]) > 1e-12) & (np.abs(u - below) > 1e-12)
+    if tnum is not None:
+        bad = np.nonzero(far & (np.asarray(tnum) != k))[0]
+        got = lambda i: "triangle %d" % int(tnum[i]); want = lambda i: "triangle %d" % int(k[i])
+    else:
+        bad = np.nonzero(far & (np.asarray(polynum) != np.asarray(pidx)[k]))[0]
+        got = lambda i: "polygon %d" % int(polynum[i]); want = lambda i: "polygon %d (triangle %d)" % (int(pidx[k[i]]), int(k[i]))
+    ctx.oracle(len(bad) == 0, "C17.%s.pick_interval" % tag, site,
+               "%d particles are not in the triangle whose cumulative-area interval holds their draw; first: particle %d, u=%r -> %s, expected %s"
+               % ((len(bad),) + ((int(bad[0]), float(u[bad[0]]), got(bad[0]), want(bad[0])) if len(bad) else (0, 0.0, "", ""))),
+               dict(cs, particle=int(bad[0]) if len(bad) else None))
+    kk = np.asarray(tnum) if tnum is not None else k
+    s, t = st[0].copy(), st[1].copy()
+    fold = s + t > 1
+    s[fold] = 1 - s[fold]; t[fold] = 1 - t[fold]
+    v = tris[kk]
+    ex = (v[:, 1, 0] - v[:, 0, 0]) * s + (v[:, 2, 0] - v[:, 0, 0]) * t + v[:, 0, 0]
+    ey = (v[:, 1, 1] - v[:, 0, 1]) * s + (v[:, 2, 1] - v[:, 0, 1]) * t + v[:, 0, 1]
+    # a few roundings of numbers of the size of the coordinates (any algebraically equal evaluation order passes)
+    tol = 1e-12 * (1.0 + float(np.max(np.abs(tris))))
+    judged = far if tnum is None else np.ones(N, dtype=bool)
+    bad = np.nonzero(judged & ((np.abs(np.asarray(outx) - ex) > tol) | (np.abs(np.asarray(outy) - ey) > tol)))[0]
+    ctx.oracle(len(bad) == 0, "C17.%s.affine_map" % tag, site,
+               "%d particles are not at v1 + s (v2 - v1) + t (v3 - v1) of their triangle; first: particle %d at (%r, %r), expected (%r, %r)"
+               % ((len(bad),) + ((int(bad[0]), float(outx[bad[0]]), float(outy[bad[0]]), float(ex[bad[0]]), float(ey[bad[0]])) if len(bad) else (0, 0.0, 0.0, 0.0, 0.0))),
+               dict(cs, particle=int(bad[0]) if len(bad) else None))
+    ctx.branch(tag + ".draw_oracles")
+
+
+# ----------------------------------------------------------------------------- experiments of the second family
+def _exp_spread(ctx, mk):
+    """latlon_from_poly: polygons anywhere on the globe, every container form, larger N, all oracles"""
+    site = MK + "latlon_from_poly"
+    N = ctx.n(100000, 500000)
+    for c in range(ctx.n(14, 40)):
+        form = ctx.rng.choice(["arrays", "arrays", "lists", "single", "equal_nvert", "equal_nvert_2d"])
+        small = ctx.rng.random() < 0.3
+        k = 1 if form == "single" else (ctx.rng.randrange(2, 5) if form.startswith("equal") else ctx.rng.randrange(1, 6))
+        lay = _layout(ctx.rng, k, small)
+        if form.startswith("equal"):
+            nv = ctx.rng.randrange(3, 10)
+            kinds = ["equal"] * k
+            polys = [_radial_star(ctx.rng, cx, cy, r, nv) if nv > 3 else _convex_polygon(ctx.rng, cx, cy, r, 3) for cx, cy, r in lay]
+        else:
+            kp = [_any_polygon(ctx.rng, cx, cy, r, many=(60, 400)) for cx, cy, r in lay]
+            kinds = [a for a, _ in kp]; polys = [b for _, b in kp]
+        if form == "lists":
+            plat = [[float(q[1]) for q in p] for p in polys]; plon = [[float(q[0]) for q in p] for p in polys]
+        elif form == "equal_nvert_2d":
+            plat = np.array([[q[1] for q in p] for p in polys]); plon = np.array([[q[0] for q in p] for p in polys])
+        else:
+            plat = [np.array([q[1] for q in p]) for p in polys]; plon = [np.array([q[0] for q in p]) for p in polys]
+        cs = dict(polys=polys, N=N, form=form, kinds=kinds)
+        ctx.case(key=("spread", form, repr([p[:3] for p in polys])), nontrivial=True,
+                 sample=dict(experiment="spread", form=form, kinds=kinds, nvert=[len(p) for p in polys], N=N) if c < 2 else None)
+        ctx.branch("spread.form=" + form); ctx.branch("spread.npoly=%d" % k); ctx.branch("spread.small" if small else "spread.large")
+        for kd in set(kinds):
+            ctx.branch("spread.kind=" + kd)
+        with RngRecorder(ctx.sub_seed()) as rec:
+            if form == "single":
+                lat, lon, polynum = mk.latlon_from_poly(plat[0], plon[0], N)
+            else:
+                lat, lon, polynum = mk.latlon_from_poly(plat, plon, N)
+        lat = np.asarray(lat); lon = np.asarray(lon); polynum = np.asarray(polynum)
+        _share_tests(ctx, "spread", site, polys, polynum, lon, lat, N, cs)
+        # the label returned with a position is the polygon that holds the position (counts above are per label,
+        # cuts per label and position; this ties the two for all N particles through the disjoint bounding boxes)
+        lab = _bbox_labels(polys, lon, lat)
+        nb = int(np.sum(lab != polynum))
+        ctx.oracle(nb == 0, "C17.spread.label_vs_position", site, "%d of %d particles carry the index of a polygon whose bounding box does not hold them" % (nb, N), cs)
+        # the triangulation the code uses (coordinates (lat, lon)), as in C03
+        coords = [np.stack((np.asarray(la, dtype=float), np.asarray(lo, dtype=float))).T for la, lo in zip(plat, plon)]
+        tris, pidx = mk.triangulate_nonconvex_multi(coords)
+        valid = True
+        for i, p in enumerate(polys):
+            ok, msg = geom.valid_triangulation([(q[1], q[0]) for q in p], [t for t, j in zip(tris, pidx) if j == i])
+            valid = valid and ok
+            ctx.oracle(ok, "C17.spread.triangulation_invalid", MK + "triangulate_nonconvex", msg, dict(cs, polygon=i))
+        if not valid:
+            continue
+        _draw_oracles(ctx, "spread", site, tris, rec, N, lat, lon, cs, polynum=polynum, pidx=pidx)
+        # uniform within every triangle: locate (per polygon; at most 20000 particles of a many-vertex polygon)
+        S = []; T = []; lost = 0
+        for i in range(k):
+            idx = np.nonzero(polynum == i)[0]
+            if len(polys[i]) > 40:
+                idx = idx[:20000]
+            tn, s, t = _locate([tr for tr, j in zip(tris, pidx) if j == i], lat[idx], lon[idx])
+            lost += int(np.sum(tn < 0)); S.append(s[tn >= 0]); T.append(t[tn >= 0])
+        ctx.oracle(lost == 0, "C17.spread.outside_triangulation", site, "%d particles lie in no triangle of their polygon" % lost, cs)
+        _sub_triangle_tests(ctx, "spread", site, np.concatenate(S), np.concatenate(T), cs)
+
+
+def _deg_to_m(dlon, dlat, lat0):
+    a = 6378137.0; b = 6356752.314245
+    ph = lat0 * math.pi / 180
+    return a * math.cos(ph) * dlon * math.pi / 180, math.sqrt((a * math.sin(ph)) ** 2 + (b * math.cos(ph)) ** 2) * dlat * math.pi / 180
+
+
+def _exp_locations(ctx, mk):
+    """the location forms of get_location at statistical N: GeoJSON layers, nested lists, metric offsets"""
+    N = ctx.n(50000, 300000)
+    ring = lambda p: [[x, y] for x, y in p] + [[p[0][0], p[0][1]]]
+    for c in range(ctx.n(16, 40)):
+        form = ctx.rng.choice(["geojson", "geojson", "geojson_farm", "lists", "offset"])
+        ctx.branch("location.form=" + form)
+        if form in ("geojson", "geojson_farm"):
+            site = MK + "get_location_file"
+            feats = []; polys = []; owner = []
+            if form == "geojson":
+                nfeat = ctx.rng.randrange(1, 5)
+                npol = [ctx.rng.randrange(1, 4) for _ in range(nfeat)]
+                if sum(npol) == 1:
+                    npol[0] = 2
+                lay = _layout(ctx.rng, sum(npol), ctx.rng.random() < 0.3)
+                ps = [_any_polygon(ctx.rng, cx, cy, r)[1] for cx, cy, r in lay]
+            else:
+                # a fish farm: 12..50 cages of 10..30 m in rows, a feature per row or one feature for the farm
+                nx = ctx.rng.randrange(4, 11); ny = ctx.rng.randrange(3, 6)
+                r0 = ctx.rng.choice([1e-4, 2e-4]); lon0 = ctx.rng.uniform(-170, 170); lat0 = ctx.rng.uniform(-75, 75)
+                ps = []
+                for j in range(ny):
+                    for i in range(nx):
+                        r = r0 * ctx.rng.choice([1.0, 1.0, 1.5])
+                        cx = lon0 + 4 * r0 * i; cy = lat0 + 3 * r0 * j
+                        ps.append(_collinear_rect(ctx.rng, cx, cy, r) if ctx.rng.random() < 0.5 else _convex_polygon(ctx.rng, cx, cy, r, ctx.rng.randrange(4, 9)))
+                npol = [nx] * ny if ctx.rng.random() < 0.5 else [nx * ny]
+                nfeat = len(npol)
+            q = 0
+            for f in range(nfeat):
+                mine = ps[q:q + npol[f]]; q += npol[f]
+                if npol[f] == 1 and ctx.rng.random() < 0.6:
+                    g = dict(type="Polygon", coordinates=[ring(mine[0])])
+                else:
+                    g = dict(type="MultiPolygon", coordinates=[[ring(p)] for p in mine])
+                feats.append(dict(type="Feature", geometry=g, properties=dict(fid=f + 1, w=10.5 * (f + 1))))
+                for p in mine:
+                    polys.append(p); owner.append(f)
+            doc = dict(type="FeatureCollection", features=feats)
+            as_list = ctx.rng.random() < 0.3
+            if as_list:
+                # a file with several layers: the first one is the release area; the decoy must not receive anything
+                decoy = dict(type="FeatureCollection", features=[dict(type="Feature", properties=dict(fid=99),
+                             geometry=dict(type="Polygon", coordinates=[ring(_convex_polygon(ctx.rng, 0.0, 85.0, 1.0, 5))]))])
+                payload = [doc, decoy]
+            else:
+                payload = doc
+            ctx.branch("location.geojson.layer_list" if as_list else "location.geojson.single_layer")
+            ctx.branch("location.geojson.npoly>=12" if len(polys) >= 12 else "location.geojson.npoly<12")
+            cs = dict(form=form, geojson=payload, N=N)
+            ctx.case(key=("location", form, c, repr(polys[0][:3])), nontrivial=True,
+                     sample=dict(experiment=form, nfeat=nfeat, npoly=len(polys), N=N) if c < 2 else None)
+            with RngRecorder(ctx.sub_seed()):
+                out = mk.get_location(io.StringIO(json.dumps(payload)), N)
+            lon = np.array(out["longitude"], dtype=float); lat = np.array(out["latitude"], dtype=float)
+            ctx.oracle(len(lon) == N and len(lat) == N, "C17.geojson.count", site, "%d positions for num=%d" % (len(lon), N), cs)
+            if len(lon) != N:
+                continue
+            lab = _bbox_labels(polys, lon, lat)
+            cut_on = None if len(polys) < 12 else [ctx.rng.randrange(len(polys)) for _ in range(6)]
+            _share_tests(ctx, "geojson", site, polys, lab, lon, lat, N, cs, cut_on=cut_on)
+            # the same shares seen through the attribute the particles carry: feature f owns area_f / A of them
+            areas = [abs(geom.shoelace(p)) for p in polys]; A = sum(areas)
+            fid = np.array(out.get("fid", [0] * N))
+            for f in range(nfeat):
+                sh = sum(a for a, o in zip(areas, owner) if o == f) / A
+                cnt = int(np.sum(fid == f + 1))
+                ctx.oracle(binom_ok2(cnt, N, min(sh, 1.0)), "C17.geojson.feature_share", site,
+                           "feature %d (area share %.6f) is carried by %d of %d particles (expected %.0f)" % (f, sh, cnt, N, N * sh), dict(cs, feature=f, count=cnt))
+            continue
+        if form == "lists":
+            site = MK + "get_location"
+            k = ctx.rng.randrange(1, 5)
+            lay = _layout(ctx.rng, k, ctx.rng.random() < 0.3)
+            polys = [_any_polygon(ctx.rng, cx, cy, r)[1] for cx, cy, r in lay]
+            if k == 1 and ctx.rng.random() < 0.7:
+                spec = [[q[0] for q in polys[0]], [q[1] for q in polys[0]]]; ctx.branch("location.lists.single")
+            else:
+                spec = [[[q[0] for q in p] for p in polys], [[q[1] for q in p] for p in polys]]; ctx.branch("location.lists.multi")
+            cs = dict(form=form, location=spec, N=N)
+            ctx.case(key=("location", form, c, repr(polys[0][:3])), nontrivial=True)
+            with RngRecorder(ctx.sub_seed()):
+                out = mk.get_location(spec, N)
+            lon = np.array(out["longitude"], dtype=float); lat = np.array(out["latitude"], dtype=float)
+            ctx.oracle(len(lon) == N and len(lat) == N, "C17.lists.count", site, "%d positions for num=%d" % (len(lon), N), cs)
+            if len(lon) != N:
+                continue
+            _share_tests(ctx, "lists", site, polys, _bbox_labels(polys, lon, lat), lon, lat, N, cs)
+            continue
+        # metric offsets (metres) around a centre; away from the poles and the antimeridian (those are C03's)
+        site = MK + "get_location_offset"
+        clon = ctx.rng.uniform(-170, 170); clat = ctx.rng.choice([-75.0, -40.0, 0.0, 45.0, 60.0, 78.0, ctx.rng.uniform(-80, 80)])
+        off = _any_polygon(ctx.rng, ctx.rng.uniform(-200, 200), ctx.rng.uniform(-200, 200), ctx.rng.choice([15.0, 50.0, 500.0, 5000.0]))[1]
+        spec = dict(center=[clon, clat], offset=[[q[0] for q in off], [q[1] for q in off]])
+        cs = dict(form=form, location=spec, N=N)
+        ctx.case(key=("location", form, c, repr(off[:3])), nontrivial=True)
+        with RngRecorder(ctx.sub_seed()):
+            out = mk.get_location(spec, N)
+        lon = np.array(out["longitude"], dtype=float); lat = np.array(out["latitude"], dtype=float)
+        ctx.oracle(len(lon) == N and len(lat) == N, "C17.offset.count", site, "%d positions for num=%d" % (len(lon), N), cs)
+        if len(lon) != N:
+            continue
+        mx, my = _deg_to_m(lon - clon, lat - clat, clat)
+        _share_tests(ctx, "offset", site, [off], _bbox_labels([off], mx, my), mx, my, N, cs, extra_cuts=4)
+
+
+def _exp_direct(ctx, mk):
+    """the sampling functions called directly: get_polygon_sample_triangles on valid triangulations whose triangles
+    have arbitrary orientation and order; get_polygon_sample and its convex / non-convex halves on (n, 2) arrays"""
+    N = ctx.n(50000, 300000)
+    for c in range(ctx.n(21, 60)):
+        which = ctx.rng.choice(["triangles", "triangles", "triangles_fan", "dispatch", "dispatch", "convex", "nonconvex"])
+        cx = ctx.rng.uniform(-170, 170); cy = ctx.rng.uniform(-75, 75); r = ctx.rng.choice([1e-4, 1e-3, 0.3, 2.0])
+        if which in ("triangles_fan", "convex") or (which == "dispatch" and ctx.rng.random() < 0.5):
+            kind, p = ("collinear", _collinear_rect(ctx.rng, cx, cy, r)) if ctx.rng.random() < 0.25 else ("convex", _convex_polygon(ctx.rng, cx, cy, r, ctx.rng.randrange(3, 13)))
+        else:
+            kind, p = _any_polygon(ctx.rng, cx, cy, r)
+        coords = np.array(p, dtype=float)
+        convex = _is_convex_exact(p)
+        ctx.branch("direct." + which); ctx.branch("direct.kind=" + kind); ctx.branch("direct.polygon_convex" if convex else "direct.polygon_nonconvex")
+        ctx.case(key=("direct", which, repr(p[:4])), nontrivial=True, sample=dict(experiment="direct." + which, kind=kind, nvert=len(p), N=N) if c < 2 else None)
+        cs = dict(call=which, polygon=p, N=N)
+        if which.startswith("triangles"):
+            site = MK + "get_polygon_sample_triangles"
+            tris = np.array(mk.triangulate(coords) if which == "triangles_fan" else mk.triangulate_nonconvex(coords), dtype=float)
+            if which == "triangles_fan":
+                # the fan of a rectangle with mid-edge vertices contains flat triangles: they carry no area and are left out
+                cr = (tris[:, 1, 0] - tris[:, 0, 0]) * (tris[:, 2, 1] - tris[:, 0, 1]) - (tris[:, 2, 0] - tris[:, 0, 0]) * (tris[:, 1, 1] - tris[:, 0, 1])
+                tris = tris[cr != 0]
+            ok, msg = geom.valid_triangulation(p, [t for t in tris])
+            ctx.oracle(ok, "C17.direct.triangulation_invalid", MK + ("triangulate" if which == "triangles_fan" else "triangulate_nonconvex"), msg, cs)
+            if not ok:
+                continue
+            # orientation and order of the triangles are not part of "a valid triangulation"
+            order = list(range(len(tris))); ctx.rng.shuffle(order)
+            tris = tris[order]
+            flips = [ctx.rng.random() < 0.5 for _ in order]
+            for j, f in enumerate(flips):
+                if f:
+                    tris[j] = tris[j][[0, 2, 1]]
+            signed = [(t[1][0] - t[0][0]) * (t[2][1] - t[0][1]) - (t[1][1] - t[0][1]) * (t[2][0] - t[0][0]) for t in tris]
+            ctx.branch("direct.mixed_orientation" if (min(signed) < 0 < max(signed)) else "direct.one_orientation")
+            cs = dict(cs, triangles=tris.tolist())
+            with RngRecorder(ctx.sub_seed()) as rec:
+                x, y, tnum = mk.get_polygon_sample_triangles(tris, N)
+            x = np.asarray(x); y = np.asarray(y); tnum = np.asarray(tnum)
+            _, shares = _exact_cum_shares(tris)
+            nt = len(tris)
+            ctx.oracle(bool(np.all((tnum >= 0) & (tnum < nt))), "C17.direct.triangle_index_range", site, "triangle index out of range", cs)
+            counts = np.bincount(tnum[(tnum >= 0) & (tnum < nt)], minlength=nt)
+            # per-triangle counts; for many triangles, 16 groups of consecutive triangles
+            groups = [[j] for j in range(nt)] if nt <= 16 else [list(range(g * nt // 16, (g + 1) * nt // 16)) for g in range(16)]
+            for g in groups:
+                sh = min(sum(shares[j] for j in g), 1.0); cnt = int(sum(counts[j] for j in g))
+                ctx.oracle(binom_ok2(cnt, N, sh), "C17.direct.triangle_share", site,
+                           "triangles %d..%d (area share %.6f) received %d of %d particles (expected %.0f)" % (g[0], g[-1], sh, cnt, N, N * sh),
+                           dict(cs, triangles_tested=[g[0], g[-1]], count=cnt))
+            _draw_oracles(ctx, "direct", site, tris, rec, N, x, y, cs, tnum=tnum)
+            # coordinates within the triangle the implementation names
+            v = tris[np.clip(tnum, 0, nt - 1)]
+            d = (v[:, 1, 0] - v[:, 0, 0]) * (v[:, 2, 1] - v[:, 0, 1]) - (v[:, 2, 0] - v[:, 0, 0]) * (v[:, 1, 1] - v[:, 0, 1])
+            s = ((x - v[:, 0, 0]) * (v[:, 2, 1] - v[:, 0, 1]) - (v[:, 2, 0] - v[:, 0, 0]) * (y - v[:, 0, 1])) / d
+            t = ((v[:, 1, 0] - v[:, 0, 0]) * (y - v[:, 0, 1]) - (x - v[:, 0, 0]) * (v[:, 1, 1] - v[:, 0, 1])) / d
+            out = int(np.sum((s < -1e-6) | (t < -1e-6) | (s + t > 1 + 1e-6)))
+            ctx.oracle(out == 0, "C17.direct.outside_triangle", site, "%d particles lie outside the triangle whose index is returned with them" % out, cs)
+            _sub_triangle_tests(ctx, "direct", site, s, t, cs)
+            _share_tests(ctx, "direct", site, [p], np.zeros(N, dtype=int), x, y, N, cs, extra_cuts=3)
+            continue
+        fn = dict(dispatch="get_polygon_sample", convex="get_polygon_sample_convex", nonconvex="get_polygon_sample_nonconvex")[which]
+        site = MK + fn
+        with RngRecorder(ctx.sub_seed()):
+            x, y = getattr(mk, fn)(coords, N)
+        x = np.asarray(x); y = np.asarray(y)
+        ctx.oracle(len(x) == N and len(y) == N, "C17.direct.count", site, "%d positions for num=%d" % (len(x), N), cs)
+        if len(x) != N:
+            continue
+        _share_tests(ctx, "direct", site, [p], _bbox_labels([p], x, y), x, y, N, cs, extra_cuts=3)
+        # any valid triangulation of the polygon will do for "uniform within each triangle"
+        tris = np.array(mk.triangulate_nonconvex(coords), dtype=float)
+        ok, msg = geom.valid_triangulation(p, [t for t in tris])
+        ctx.oracle(ok, "C17.direct.triangulation_invalid", MK + "triangulate_nonconvex", msg, cs)
+        if not ok:
+            continue
+        sel = slice(0, 20000) if len(p) > 40 else slice(None)
+        tn, s, t = _locate(tris, x[sel], y[sel])
+        lost = int(np.sum(tn < 0))
+        ctx.oracle(lost == 0, "C17.direct.outside_triangulation", site, "%d particles lie in no triangle of the polygon" % lost, cs)
+        _sub_triangle_tests(ctx, "direct", site, s[tn >= 0], t[tn >= 0], cs)
+
+
+def _exp_ranges(ctx, mk):
+    """two-element ranges in every container and on the way through get_attrs / make_release; distribution function
+    within the DKW bound; no atoms"""
+    from scipy.stats import binom
+    site = MK + "get_attr"
+    N = ctx.n(20000, 500000)
+    for c in range(ctx.n(21, 60)):
+        if ctx.rng.random() < 0.4:
+            lo, hi = ctx.rng.choice([(0, 10), (-5, 5), (100, 350), (0, 1), (-20, -10), (0, 1000)]); ctx.branch("range2.int_bounds")
+        else:
+            lo = ctx.rng.choice([0.0, -5.0, 100.0, -250.5, 1e-3, 7.25]); hi = lo + ctx.rng.choice([1.0, 10.0, 250.0, 1e-3, 1e4, 0.5]); ctx.branch("range2.float_bounds")
+        via = ctx.rng.choice(["list", "tuple", "ndarray", "uniform_dict", "get_attrs", "make_release", "make_release_attrs"])
+        ctx.branch("range2.via=" + via)
+        n = N if not via.startswith("make_release") else min(N, 50000)
+        cs = dict(lo=lo, hi=hi, via=via, N=n)
+        ctx.case(key=("range2", lo, hi, via, c), nontrivial=True)
+        with RngRecorder(ctx.sub_seed()):
+            if via == "list":
+                v = mk.get_attr([lo, hi], n)
+            elif via == "tuple":
+                v = mk.get_attr((lo, hi), n)
+            elif via == "ndarray":
+                v = mk.get_attr(np.array([lo, hi]), n)
+            elif via == "uniform_dict":
+                v = mk.get_attr(dict(distribution="uniform", min=lo, max=hi), n)
+            elif via == "get_attrs":
+                v = mk.get_attrs(dict(region=3, depth=[lo, hi]), n)["depth"]
+            elif via == "make_release":
+                v = mk.make_release(dict(num=n, date="2000-01-01 01:00", location=[5.0, 60.0], depth=[lo, hi]))["depth"]
+            else:
+                v = mk.make_release(dict(num=n, date=["2000-01-01", "2000-01-03"], location=[5.0, 60.0], attrs=dict(age=[lo, hi])))["age"]
+        v = np.array(v, dtype=float)
+        ctx.oracle(len(v) == n, "C17.range2.count", site, "%d values for num=%d" % (len(v), n), cs)
+        if len(v) != n:
+            continue
+        ctx.oracle(bool(np.all((v >= lo) & (v <= hi))), "C17.range2.outside", site,
+                   "values outside [%r, %r]: min %r max %r" % (lo, hi, float(v.min()), float(v.max())), cs)
+        cnt = np.histogram(v, bins=np.linspace(lo, hi, 11))[0]
+        for b in range(10):
+            ctx.oracle(binom_ok2(int(cnt[b]), n, 0.1), "C17.range2.uniform", site, "[%r,%r]: bin %d holds %d of %d" % (lo, hi, b, cnt[b], n), dict(cs, counts=cnt.tolist()))
+        # distribution function: Dvoretzky-Kiefer-Wolfowitz with Massart's constant, valid for every n:
+        # P(sup |F_n - F| > eps) <= 2 exp(-2 n eps^2)
+        _count_test()
+        eps = math.sqrt(math.log(2.0 / (2 * _level())) / (2 * n))
+        F = (np.sort(v) - lo) / float(hi - lo)
+        i = np.arange(1, n + 1)
+        D = float(max(np.max(i / n - F), np.max(F - (i - 1) / n)))
+        ctx.oracle(D <= eps, "C17.range2.distribution_function", site,
+                   "[%r,%r]: sup |F_n(x) - (x-lo)/(hi-lo)| = %.5f exceeds the DKW bound %.5f (n=%d)" % (lo, hi, D, eps, n), cs)
+        # no atoms: a value repeats an earlier one with probability <= (i-1) * pmax, where pmax bounds the mass of one
+        # double: one draw of 2^-53, or the doubles of the draw grid that round to one double of the range, plus one
+        # -> repeats are dominated by Binomial(n, n * pmax)
+        _count_test()
+        ulp = float(np.spacing(max(abs(lo), abs(hi))))
+        pmax = 2 * max(2.0 ** -53, ulp / float(hi - lo)) + 2.0 ** -52      # factor 2: rounding of the product before the sum
+        q = min(1.0, n * pmax)
+        allowed = int(n * q)
+        while q < 1.0 and binom.sf(allowed, n, q) >= 2 * _level():        # P(repeats > allowed) < level
+            allowed += 1 + allowed // 8
+        allowed = n if q >= 1.0 else allowed
+        rep = n - len(np.unique(v))
+        ctx.oracle(rep <= allowed, "C17.range2.atoms", site,
+                   "[%r,%r]: %d of %d values repeat an earlier value (rounding explains at most %d)" % (lo, hi, rep, n, allowed), cs)
+
+
 def run(ctx):
     mk = importlib.import_module("ladim_plugins.release.makrel")
+    _new_tests[0] = 0
     N = ctx.n(20000, 500000)
     for c in range(ctx.n(10, 40)):
         k = ctx.rng.randrange(1, 5)
@@ -55,6 +684,14 @@ def run(ctx):
             ctx.oracle(binom_ok(cnt, N, areas[i] / A), "C17.polygon_share", SITE,
                        "polygon %d (area share %.5f) received %d of %d particles (expected %.0f +- %.0f)" %
                        (i, areas[i] / A, cnt, N, N * areas[i] / A, math.sqrt(N * areas[i] / A * (1 - areas[i] / A))), dict(cs, polygon=i, count=cnt))
+        if k > 1:
+            # a polygon with a tiny share cannot fail the test above on its own (0 of an expected 20 is not rare enough):
+            # all polygons but the largest, together
+            big = max(range(k), key=lambda i: areas[i])
+            cnt = int(np.sum(polynum != big)); sh = 1 - areas[big] / A
+            ctx.oracle(binom_ok2(cnt, N, sh), "C17.polygon_share_pooled", SITE,
+                       "all polygons but the largest (area share %.6f) received %d of %d particles (expected %.0f)" % (sh, cnt, N, N * sh),
+                       dict(cs, largest=big, count=cnt))
         for cut in range(6):
             i = ctx.rng.randrange(k)
             p = polys[i]
@@ -79,6 +716,13 @@ def run(ctx):
         for b in range(10):
             ctx.oracle(binom_ok(int(cnt[b]), N, 0.1), "C17.range.uniform", "ladim_plugins/release/makrel.py::get_attr",
                        "[%r,%r]: bin %d holds %d of %d" % (lo, hi, b, cnt[b], N), dict(lo=lo, hi=hi, counts=cnt.tolist()))
+    # second family (own false-alarm budget)
+    _exp_spread(ctx, mk)
+    _exp_locations(ctx, mk)
+    _exp_direct(ctx, mk)
+    _exp_ranges(ctx, mk)
+    assert _new_tests[0] <= MAX_TESTS_NEW, "second family: %d tests exceed the Bonferroni count %d" % (_new_tests[0], MAX_TESTS_NEW)
+    ctx.note("statistical tests of the second family: %d (per-test level %.2e, family-wise <= %.1e)" % (_new_tests[0], 2 * _level(), ALPHA_NEW))
     # the sampling map itself is pinned bit-exactly (shared with C03)
     if not getattr(ctx, "widened", False):
         saved = ctx.tier
